@@ -167,7 +167,7 @@ func c05Profiles(tier Tier) []*explore.Profile {
 		},
 		Menu: func(w *world.World) []world.Action { return kvMenu(w, tier) },
 	}
-	return []*explore.Profile{frame, kv}
+	return []*explore.Profile{frame, kv, highNonceProfile("high-nonce", tier, orc, 2)}
 }
 
 func kvKeys(w *world.World) [][]byte {
@@ -237,7 +237,7 @@ func C05(tier Tier) int {
 	req := []string{"kv-accepted", "sender:SaveKeyValue:err", "field-change-in-footprint:ChangeOwnerAddress", "field-change-in-footprint:ClaimDeveloperRewards",
 		"field-change-in-footprint:SetUserName", "key-change-in-footprint:ESDTPause", "key-change-in-footprint:ESDTNFTCreateRoleTransfer",
 		"key-change-in-footprint:MultiESDTNFTTransfer", "key-change-in-footprint:ESDTWipe", "key-change-in-footprint:ESDTSetRole"}
-	return RunLedger("C05", tier, c05Profiles(tier), req)
+	return RunLedger("C05", tier, c05Profiles(tier), append(req, "high-nonce-reached"))
 }
 
 // ---------------------------------------------------------------------------------------------
@@ -366,7 +366,7 @@ func c08Profiles(tier Tier) []*explore.Profile {
 		},
 		Menu: func(w *world.World) []world.Action { return hopMenu(w, o, uni.S, []int64{1}, false) },
 	}
-	return []*explore.Profile{create, routes, two}
+	return []*explore.Profile{create, routes, two, highNonceProfile("high-nonce", tier, orc, 2)}
 }
 
 func init() { LedgerProfiles["C08"] = c08Profiles }
@@ -377,5 +377,5 @@ func C08(tier Tier) int {
 		"hop-metadata-intact:ESDTNFTTransfer:sender", "hop-metadata-intact:ESDTNFTTransfer:dest", "hop-metadata-intact:MultiESDTNFTTransfer:sender",
 		"hop-metadata-intact:MultiESDTNFTTransfer:dest", "payload-metadata-intact:ESDTNFTTransfer", "payload-metadata-intact:MultiESDTNFTTransfer",
 		"sender:ESDTNFTCreate:err", "dest:ESDTNFTTransfer:err", "sender:ESDTNFTTransfer:err"}
-	return RunLedger("C08", tier, c08Profiles(tier), req)
+	return RunLedger("C08", tier, c08Profiles(tier), append(req, "high-nonce-reached"))
 }
